@@ -50,29 +50,43 @@ class ScopeStringMatches(FnCheck):
     prop = 'C16'
     target = f'{LOC}:SdcLocation._scope_string_matches'
     replay_fn = 'C16:filter_total'
+    replay_without_model = True     # the replay runs a fixed family of scopes, no solver model needed
 
     def concretize(self, vc, model):
-        return {'path': vc.info.get('exc')}
+        return {'path': vc.info.get('exc'), 'obligation': vc.name}
     doc = ('_scope_string_matches never raises for any scope string: a scope with a different scheme (UrlSchemeError) '
-           'or one that is not a well-formed location scope (ValueError from urlsplit / path unpacking) is "no match"')
+           'or one that is not a well-formed location scope (ValueError from urlsplit / path unpacking) is "no match"; '
+           'and it is True EXACTLY when from_scope_string accepts the text and the location it returns is inside self '
+           '(C16.contains) - for every text, whatever its length or content')
     trusted = ('from_scope_string raises only UrlSchemeError or ValueError (bounded check C16.from_scope_string_raises)',)
 
     def setup(self, b):
         self.me, self.mf = mk_loc(b, 'self')
-        return self.me, [b.str('scope_text')], {}
+        self.text = b.str('scope_text')
+        # what from_scope_string does with a given text: it either raises (not a location scope) or returns THE location
+        # the text denotes - uninterpreted functions of the text, so that a result that does not depend on the parsed
+        # location (e.g. a shortcut that never parses) cannot satisfy the postcondition
+        self.parses = z3.Function('is_location_scope', StrS, BoolS)
+        self.parsed = {e: z3.Function(f'parsed_{e}', StrS, Val) for e in ELEMS + ('_root',)}
+        return self.me, [self.text], {}
 
     def callees(self, ex):
         def from_scope(ex_, st, args, kwargs):
+            t = ex_.concrete_kind(st, args[0], ('str',)).e
             o = st.alloc((LOC, 'SdcLocation'))
             for e in ELEMS:
-                v = vany(fresh(Val, e), maybe_none=True)
+                v = vany(self.parsed[e](t), maybe_none=True)
                 st.assume(z3.Or(Val.is_none(v.e), Val.is_str(v.e)))
                 st.write_field(o, e, v)
-            r = vany(fresh(Val, 'root'))
+            r = vany(self.parsed['_root'](t))
             st.assume(Val.is_str(r.e))
             st.write_field(o, '_root', r)
-            return [(st.fork(), Raise(ex_.mk_exc('UrlSchemeError', 'from_scope_string'))),
-                    (st.fork(), Raise(ex_.mk_exc('ValueError', 'from_scope_string'))), (st, o)]
+            bad1, bad2 = st.fork(), st.fork()
+            bad1.assume(z3.Not(self.parses(t)))
+            bad2.assume(z3.Not(self.parses(t)))
+            st.assume(self.parses(t))
+            return [(bad1, Raise(ex_.mk_exc('UrlSchemeError', 'from_scope_string'))),
+                    (bad2, Raise(ex_.mk_exc('ValueError', 'from_scope_string'))), (st, o)]
         return {f'{LOC}:SdcLocation.from_scope_string': Pure(from_scope, name='from_scope_string contract'),
                 f'{LOC}:SdcLocation.__contains__': Inline(), f'{LOC}:SdcLocation.root': Inline()}
 
@@ -84,6 +98,10 @@ class ScopeStringMatches(FnCheck):
         else:
             r = outcome[1]
             ex.oblige(st, 'returns_bool', z3.BoolVal(r.kind == 'bool'))
+            t = self.text.e
+            inside = z3.And(self.mf['_root'].e == self.parsed['_root'](t),
+                            *[z3.Or(Val.is_none(self.mf[e].e), self.mf[e].e == self.parsed[e](t)) for e in ELEMS])
+            ex.oblige(st, 'matches_iff_the_scope_denotes_a_location_inside', truthy(r, st) == z3.And(self.parses(t), inside))
 
 
 @register
